@@ -170,7 +170,7 @@ def main(args):
     quick = args.tier == "quick"
     ck.rule = ("design level: TLC model-checks the generator/finally protocol (spec/Iterators, MC_Iter) over ALL well-nested "
                "scripts of <= %d events x all histories of <= %d operations on two iterators of one validator (invariants "
-               "ScopeRestored, Balanced, HistoryFree) and confirms that the negative controls NoFinally and AllowReentry "
+               "ScopeRestored, Balanced, HistoryFree) and confirms that the negative controls NoFinally, AllowReentry and CloseUnwinds = FALSE (clean-up on exceptions only, not on close) "
                "violate them. binding: for up to %d concrete scenarios per draft plus every reference-bearing case of the bundled official suite (ref.json, refRemote.json, definitions.json; their tests' instances) (nested id + relative reference, recursion, remote "
                "document through a handler that fails then succeeds, dangling pointer, cross-document reference under "
                "not/disallow before a local reference, anyOf/oneOf/contains/if over references, the same pointer string meaning different things in two documents) the script of every "
@@ -185,7 +185,7 @@ def main(args):
     if r.violation:
         raise tlc.MachineryFailure("protocol model violated: " + r.violation)
     ck.add_tlc(r, "MC_Iter")
-    for neg, inv in (("neg_nofinally", "ScopeRestored"), ("neg_reentry", "HistoryFree")):
+    for neg, inv in (("neg_nofinally", "ScopeRestored"), ("neg_reentry", "HistoryFree"), ("neg_closeleak", "ScopeRestored")):
         rn = tlc.run("mc/MC_Iter.tla", cfg="mc/MC_Iter_%s.cfg" % neg, workers=8, timeout=3000, expect_violation=True)
         if not rn.violation or inv not in rn.violation:
             raise tlc.MachineryFailure("negative control %s did not violate %s (vacuous invariant?)" % (neg, inv))
